@@ -21,7 +21,7 @@ from pathlib import Path
 
 ROOT = Path(__file__).resolve().parent.parent
 SEEDED = ROOT / "seeded"
-BASE = Path("/tmp/verif-seeded")
+BASE = Path(f"/tmp/verif-seeded-{os.getpid()}")  # one scratch root per invocation: concurrent runs must not remove each other's trees
 
 
 def prepare(sid):
